@@ -47,6 +47,13 @@ def join(a, b):
     return a / b
 
 
+def path_axioms():
+    """Proof level: makes A2-A5 available as QUANTIFIED facts (with patterns) on this path -- for clauses whose
+    instances are not syntactic (a variable known to equal a join).  Natively: True.  Used sparingly: with
+    quantified facts a refutation comes back as `unknown` instead of a counter-model."""
+    return True
+
+
 def P0(s):
     """P(s), for use inside quantified clauses (proof: the bare term, no axiom instances)"""
     return pathlib.PurePosixPath(s)
@@ -183,7 +190,6 @@ def _quantified_axioms(interp):
 def mk_join(interp, a, b):
     ta, tb = _term(a), _term(b)
     t = _join()(ta, tb)
-    _quantified_axioms(interp)
     if _once(interp, 'join', t):
         ab = _abs()
         interp.st.assume(z3.Implies(ab(tb), t == tb))  # A2
@@ -276,6 +282,11 @@ def _m_P(interp, args, kwargs):
 
 def _m_join(interp, args, kwargs):
     return mk_join(interp, args[0], args[1])
+
+
+def _m_path_axioms(interp, args, kwargs):
+    _quantified_axioms(interp)
+    return True
 
 
 def _m_P0(interp, args, kwargs):
@@ -424,6 +435,12 @@ class PathI(PurePathI):
     }
 
 
+# a path object is determined by its denotation: it can be an element of a symbolic mutable list
+PurePathI.mlist_codec = (('int',), lambda interp, o: [interp.getattr(o, 'pid')],
+                         lambda interp, scalars: new_path(interp, scalars[0], 'path', PurePathI))
+PathI.mlist_codec = (('int',), lambda interp, o: [interp.getattr(o, 'pid')],
+                     lambda interp, scalars: new_path(interp, scalars[0], 'path', PathI))
+
 PATH = Iface(PathI)
 
 
@@ -454,6 +471,7 @@ def install(M):
     M.model(P, _m_P)
     M.model(join, _m_join)
     M.model(P0, _m_P0)
+    M.model(path_axioms, _m_path_axioms)
     M.model(join0, _m_join0)
     M.model(is_abs, _m_is_abs)
     M.model(pstr, _m_pstr)
